@@ -14,7 +14,7 @@ ID = "C13"
 LEVEL = "exploration"
 RULE = ("case A = batch of generated translatable designs: each is translated by both backends in fresh "
         "subprocesses (PYTHONHASHSEED 0, 1 and a drawn value; quick tier: 0 and a drawn value; identical file paths) and in-process; the SHA-256 of "
-        "every emitted file must coincide; one batch in three also holds a black-box VerilogPlaceholder with 2-6 library files (v_libs), translated in the fresh processes. case B = generated naming-focused hierarchy: 2-4 instances of parametrised leaf "
+        "every emitted file must coincide; one batch in three also holds a black-box VerilogPlaceholder with 2-6 library files (v_libs) and sometimes a second instance with another construct() parameter, translated in the fresh processes; every module name of that text must stand for one body. case B = generated naming-focused hierarchy: 2-4 instances of parametrised leaf "
         "classes (ints, bools, strs, Bits values, Bits types, None, lists, long lists that trigger hashing; values whose "
         "str() coincide such as 1/'1'/b1(1)) and of factory-made classes that share __name__ but differ in a closure "
         "value, or (one case in three) of one class with three defaulted construct() arguments of which each instance supplies another subset, some overridden afterwards with set_param; the emitted text must define every module once, define every instantiated module, use legal unique "
